@@ -54,6 +54,18 @@ Step(s0, e, ln) ==
                             !.drift = IF s0.impOK /\ ~same THEN s0.drift \cup {<<s0.case, ln, "read size / result">>} ELSE s0.drift,
                             !.viol = s0.viol \cup Bad(s0, ln, fs2.bad \ before, "poll")]
     [] e.ev = "fend" -> [s0 EXCEPT !.hasF = FALSE]
+    [] e.ev = "fecho" ->
+         \* C14 over a real file (strong ETag, sub-second mtime in the past): served Last-Modified is
+         \* the mtime truncated to the second, and echoing validators gives the cache-friendly answer
+         LET Has(x) == \E i \in DOMAIN e.S : e.S[i] = x
+             due304 == Has("inm") \/ Has("ims")
+             bad == \/ e.status1 # 200
+                    \/ e.lm1 # e.mt_s
+                    \/ e.etag.k # "tag"
+                    \/ (due304 /\ e.status2 # 304)
+                    \/ ((Has("im") \/ Has("ius")) /\ e.status2 = 412)
+                    \/ (Has("ir") /\ ~due304 /\ e.size > 0 /\ e.status2 # 206)
+         IN [s0 EXCEPT !.viol = s0.viol \cup Bad(s0, ln, IF bad THEN Enforce \cap {"C14"} ELSE {}, "echo over a real file")]
     [] OTHER -> s0
 
 Init == l = 1 /\ st = Init0
